@@ -23,8 +23,12 @@ txt = "\n".join(out) + "\n"
 d = open(H + "/DESIGN.md").read()
 a = d.index("* **C01**\n", d.index("### 10.1"))
 b = d.index("### 10.2")
-# keep whatever prose sits between the list and 10.2
-tail_start = d.rfind("\n\n", a, b)
-d = d[:a] + txt + "\n" + d[b:]
+# keep whatever prose sits between the list and 10.2 (the list itself is
+# made of lines starting with "* " or two blanks)
+seg = d[a:b].split("\n")
+i = 0
+while i < len(seg) and (seg[i].startswith("* ") or seg[i].startswith("  ")): i += 1
+prose = "\n".join(seg[i:]).strip("\n")
+d = d[:a] + txt + "\n" + (prose + "\n\n" if prose else "") + d[b:]
 open(H + "/DESIGN.md", "w").write(d)
 print("fixed entries:", sum(len(v) for v in by.values()))
